@@ -29,6 +29,7 @@ def run(ck, fb):
     r10e(ck, fb)
     r10f(ck, fb)
     r10g(ck, fb)
+    r10h(ck, fb)
 
 
 def r10a(ck, fb):
@@ -350,3 +351,40 @@ def r10g(ck, fb):
         ck.require(ok, 'R10g', 'add:no-prune-before-sender-stored', s0.where(),
                    'ids are removed from a listener list inside add() before the new sender is in sender_map (%s)' % s0.callee.split('::')[-1])
     ck.ok('R10g', 'add:prune-sites', a.where(), '%d' % len(prunes))
+
+
+def r10h(ck, fb, R='R10h'):
+    ck.rule(R, 'a long-poll stays registered under each of its keys until it is answered: among the methods of ConfigListener only notify (which '
+               'answers the ids it takes) removes anything from the key -> listener-ids map; timeout answers by sender and leaves the ids to the '
+               'next notify of their key. A clean-up elsewhere that drops ids by age / by value un-registers polls that are still waiting (a '
+               '60 s poll registered before a 50 ms poll is dropped with it and never hears of the publish)')
+    n = 0
+    for b in fb.find('^' + re.escape(CL)):
+        if b.parent:
+            continue
+        n += 1
+        if b.name == CL + 'notify':
+            continue
+        bad = []
+        for x in util.region(fb, b):
+            if x.name.startswith(CL + 'notify'):
+                continue
+            for s0 in util.mut_calls_on_field(x, 'listener', r'(HashMap::<K, V, S, A>|BTreeMap::<K, V, A>)::(remove|retain|clear|drain|remove_entry|extract_if)$'):
+                bad.append(s0)
+            # pruning of a per-key id list reached through the map (get_mut / values_mut / the retain closure)
+            for s0 in x.calls(r'Vec::<T, A>::(retain|remove|clear|pop|truncate|drain|swap_remove|dedup)'):
+                if b.name == CL + 'add':
+                    continue        # judged by R10g
+                ty = x.local_ty(op_place_local(s0.args[0])) if s0.args else ''
+                if 'u64' in (ty or ''):
+                    bad.append(s0)
+        ck.require(not bad, R, '%s:keeps-registrations' % b.name.split('::')[-1], bad[0].where() if bad else b.where(),
+                   '%s removes listener ids from the key map although it does not answer them (%s): a poll that is still waiting is un-registered '
+                   'and is not told when its key changes' % (b.name, sorted(set(x.callee.split('::')[-1] for x in bad))), 'removes nothing')
+    ck.floor(R, 'ConfigListener methods', n, 4)
+
+
+def op_place_local(op):
+    from rn.facts import op_place, pl_local
+    p = op_place(op)
+    return pl_local(p) if p is not None else -1
